@@ -63,6 +63,40 @@ class Edge:
         return f'{self.src.id}-{self.label}{c}->{self.dst.id}'
 
 
+def _const_dict_read(cfg: 'CFG', sub: ast.Subscript) -> bool:
+    """`d['k']` where d is a variable (of this function, an enclosing one or the module) bound once to a dict display
+    that has the constant key 'k', and nothing anywhere in the module removes entries from a variable of that name:
+    the read cannot raise KeyError (write-only statistics counters and the like)."""
+    if not (isinstance(sub.value, ast.Name) and isinstance(sub.slice, ast.Constant) and isinstance(sub.slice.value, str)):
+        return False
+    name = sub.value.id
+    sc = cfg.scope
+    bs = sc.binding_scope(name)
+    if bs is None or name in getattr(bs, 'params', ()):
+        return False
+    vals = []
+    for x in own_nodes(bs.node):
+        if isinstance(x, (ast.Assign, ast.AnnAssign)) and getattr(x, 'value', None) is not None:
+            tg = x.targets if isinstance(x, ast.Assign) else [x.target]
+            if any(isinstance(t, ast.Name) and t.id == name for t in tg):
+                vals.append(x.value)
+        elif isinstance(x, ast.Name) and x.id == name and isinstance(x.ctx, (ast.Store, ast.Del)) and \
+                not isinstance(parent(x), (ast.Assign, ast.AnnAssign)):
+            return False
+    if len(vals) != 1 or not isinstance(vals[0], ast.Dict):
+        return False
+    keys = [k.value for k in vals[0].keys if isinstance(k, ast.Constant)]
+    if len(keys) != len(vals[0].keys) or sub.slice.value not in keys:
+        return False
+    for x in ast.walk(cfg.scope.unit.tree):
+        if isinstance(x, ast.Attribute) and isinstance(x.value, ast.Name) and x.value.id == name \
+                and x.attr in ('pop', 'popitem', 'clear', 'update', 'setdefault', '__delitem__'):
+            return False
+        if isinstance(x, ast.Delete) and any(isinstance(t, ast.Subscript) and isinstance(t.value, ast.Name) and t.value.id == name for t in x.targets):
+            return False
+    return True
+
+
 def _clone_renamed(root: ast.AST, ren: Dict[str, str]) -> ast.AST:
     """Copy of an AST subtree with the names in *ren* renamed (parents set inside the copy; the copy hangs where the
     original hangs)."""
@@ -133,6 +167,7 @@ class CFG:
         self._inlining: List[str] = []
         self.cur_scope: Scope = scope          # scope whose body is currently being built (changes while inlining)
         self._inline_frames: List[Set[str]] = []   # local names of the helpers on the inlining stack
+        self.asserts_assumed = 0
         self._rename_k = 0
         self.callee_cache: Dict[int, dict] = {}
         self._stack_sites: Dict[int, str] = {}
@@ -471,10 +506,11 @@ class CFG:
         self.cur = []
 
     def _s_Assert(self, s: ast.Assert) -> None:
+        # Assumption (DESIGN 2.2): assert statements hold.  They are the author's stated invariants and vanish under
+        # `python -O`; the test is still evaluated (its calls can raise, its outcome narrows None-ness / flags on the
+        # way on), the failing edge is taken to be infeasible.
         t, f = self._cond(s.test)
-        self.cur = f
-        if f:
-            self._node('assert_fail', s)
+        self.asserts_assumed += 1
         self.cur = t
 
     def _s_If(self, s: ast.If) -> None:
@@ -495,13 +531,25 @@ class CFG:
         self._loops = old + (s,)
         self.cur = t
         self._build_body(s.body)
-        for src, label in self.cur:
-            self._edge(src, head, 'loop')
+        self._loop_back(head, s)
         self._loops = old
         self.ctx.pop()
         self.cur = f
         self._build_body(s.orelse)
         self.cur = self.cur + c.breaks
+
+    def _loop_back(self, head: Node, s: ast.AST) -> None:
+        """Back edges of a loop body.  A frontier entry that is the outcome of a test (`if c: break` as the last statement)
+        keeps its true/false label on an edge to a join node, so that path queries still see which way the test went."""
+        plain = [(src, label) for src, label in self.cur if label not in ('true', 'false')]
+        tested = [(src, label) for src, label in self.cur if label in ('true', 'false')]
+        if tested:
+            self.cur = tested
+            j = self._node('nop', s, getattr(s, 'end_lineno', None) or getattr(s, 'lineno', 0), loop_join=True)
+            self._edge(j, head, 'loop')
+        for src, label in plain:
+            self._edge(src, head, 'loop')
+        self.cur = []
 
     def _s_For(self, s) -> None:
         is_async = isinstance(s, ast.AsyncFor)
@@ -514,8 +562,7 @@ class CFG:
         self.cur = [(head, 'true')]
         self._store(s.target, None, s)
         self._build_body(s.body)
-        for src, label in self.cur:
-            self._edge(src, head, 'loop')
+        self._loop_back(head, s)
         self._loops = old
         self.ctx.pop()
         self.cur = [(head, 'false')]
@@ -1031,6 +1078,18 @@ class CFG:
             ic = next((c for c in reversed(self.ctx) if c.kind == 'inline'), None)
             bound = getattr(ic, 'callables', {}).get(f.id) if ic is not None else None
             host = getattr(ic, 'caller_scope', None)
+            # a callable handed down through several inlined helpers (`_buffer_once(load)` -> `_load_next_or_run(load)`):
+            # follow the chain of bindings outwards to the scope that owns the function
+            ics = [c for c in reversed(self.ctx) if c.kind == 'inline']
+            k_ = 1
+            while isinstance(bound, ast.Name) and host is not None and k_ < len(ics):
+                oc = ics[k_]
+                onm = getattr(oc, 'renamed', {}).get(bound.id, bound.id)
+                if getattr(oc, 'scope', None) is host and onm in host.params and bound.id in getattr(oc, 'callables', {}):
+                    bound, host = oc.callables[bound.id], getattr(oc, 'caller_scope', None)
+                    k_ += 1
+                else:
+                    break
             if isinstance(bound, ast.Name) and host is not None:
                 synth = ast.Call(func=bound, args=list(e.args), keywords=list(e.keywords))
                 ast.copy_location(synth, e)
@@ -1186,6 +1245,8 @@ class CFG:
         c.assign_stmt = assign_stmt
         c.return_through = return_through
         c.caller_scope = self.cur_scope
+        c.scope = t
+        c.binding = {renamed.get(prm, prm): arg for prm, arg in binding}
         c.callables = {prm: arg for prm, arg in binding
                        if isinstance(arg, (ast.Lambda, ast.Attribute, ast.Call)) or (isinstance(arg, ast.Name) and not isinstance(arg, ast.Constant))}
         self.ctx.append(c)
@@ -1383,6 +1444,8 @@ class RaiseModel:
             if isinstance(sl, ast.Constant) and isinstance(sl.value, int):
                 # fixed-shape tuple indexing (`t[1]`): the repo's only use of
                 # constant integer subscripts; treated as total
+                return set(), False
+            if _const_dict_read(cfg, n.ast):
                 return set(), False
             return {'KeyError'}, False
         if k == 'del_sub':
@@ -1601,6 +1664,21 @@ def is_user_value(cfg: CFG, name: ast.Name, _depth: int = 0) -> bool:
     if bs is None or bs.kind != 'function':
         return False
     if name.id in bs.params:
+        # a parameter of a private helper that is being inlined stands for the argument its (only visible) caller gave
+        for c in reversed(getattr(cfg, 'ctx', []) or []):
+            if getattr(c, 'kind', None) == 'inline' and getattr(c, 'scope', None) is bs and _depth < 4:
+                arg = getattr(c, 'binding', {}).get(name.id)
+                host = getattr(c, 'caller_scope', None)
+                if arg is None or host is None:
+                    break
+                if isinstance(arg, ast.Name):
+                    saved = cfg.cur_scope
+                    cfg.cur_scope = host
+                    try:
+                        return is_user_value(cfg, arg, _depth + 1)
+                    finally:
+                        cfg.cur_scope = saved
+                return False
         # rebinding of a parameter to a known library object does not matter
         # for raise purposes: stay conservative (user value)
         return name.id not in ('self', 'cls')
